@@ -4,8 +4,8 @@
 From Coq Require Import NArith List Bool Lia ZArith.
 From Coq Require Import ZifyN ZifyBool ZifyNat.
 From DV Require Import Base.Outcome Base.Bytes Base.Names Base.PName.
-From DV Require C11.Frame.
-From DV Require Import C11.Gen C11.Model C11.FrameTotal.
+From DV Require Import C01.Proofs C01.Proofs3.
+From DV Require Import C11.Gen C11.Model.
 Import ListNotations.
 Local Open Scope N_scope.
 Ltac Zify.zify_post_hook ::= Z.div_mod_to_equations.
@@ -49,7 +49,7 @@ Proof.
   pose proof E as E2. rewrite parse_ref_eq in E2.
   (* what parse accepts, skip accepts, with the same end *)
   assert (S : skip_labels PARSE_FUEL m lim pos 0 = Ok (pn_end pn)).
-  { eapply Frame.parse_then_skip; [|exact E2]. lia. }
+  { eapply parse_then_skip; [|exact E2]. lia. }
   eapply skip_labels_end in S; [|exact H]. lia.
 Qed.
 
@@ -145,7 +145,7 @@ Qed.
 
 (* Tsig::parse on a record that ParsedRecord::parse accepted: the unchecked
    label iteration over the two names (owner, algorithm) is safe because both
-   were validated by parse_ref (validate-then-trust, FrameTotal.parse_ref_sound) *)
+   were validated by parse_ref (validate-then-trust, C01 parse_ref_sound) *)
 Lemma tsig_parse_no_fuel m pos lim h start : wf_bytes m -> lim <= mlen m -> pos <= lim ->
   record_parse m pos lim = Ok h -> tsig_parse m h start <> OutOfFuel.
 Proof.
